@@ -23,6 +23,7 @@ class SleepSpec(SeqSpec):
     imports = "From Juniper Require Import Common.Base Conc.GoLTS Conc.XTime."
     preamble = ""
     checkers = {"M": "check_sleep"}
+    case_type = "Z * option Z * list slab"
 
     def gen_one(self, rng, kind):
         d = rng.choice([1, 2, 3, 5, 8, 12]) * MS + rng.randrange(0, MS)
@@ -158,6 +159,7 @@ class TickerSpec(SeqSpec):
     imports = "From Juniper Require Import Common.Base Conc.GoLTS Conc.XTime."
     preamble = ""
     checkers = {"M": "check_ticker"}
+    case_type = "nat * list lab"
 
     def jitters(self, d):
         return [0, 1, d // 2, d - 1]
